@@ -180,6 +180,11 @@ func (p *process) tryRestart(v any) {
 }
 
 func (p *process) cleanup(cancel context.CancelFunc) {
+	// cleanup is also reached without a stop request (max restarts exceeded,
+	// Shutdown): there is no context to cancel then.
+	if cancel == nil {
+		cancel = func() {}
+	}
 	defer cancel()
 
 	if p.context.parentCtx != nil {
